@@ -88,6 +88,7 @@ func ruleIndexContracts(r *Run) {
 		return
 	}
 	fns := r.dagazFuncs()
+	r.markCellSlots(fns)
 	// mergers: functions of the package that write the grid's MergeCount (directly)
 	mergers := map[*types.Func]bool{}
 	for _, fn := range fns {
@@ -135,7 +136,7 @@ func ruleIndexContracts(r *Run) {
 								regOK = regOK && r.CheckT("Q2", fn.Name+":count-by-one", false, ev.Pos, path, "the plane count is changed by something other than an increment by one when a sample is stored")
 							}
 						}
-						if strings.HasPrefix(c, "recv.Grid[") {
+						if strings.HasPrefix(c, "recv.Grid[") || cellSlotDerefs[ast.Unparen(l)] {
 							regs++
 							regPos = ev.Pos
 							if len(ev.Rhs) == len(ev.Lhs) {
@@ -498,7 +499,96 @@ func resolveLocal(fn *Func, x ast.Expr, depth int) ast.Expr {
 }
 
 // gridCell: x is X.Grid[a][b] (returns depth 2), X.Grid[a] (1) or X.Grid (0); -1 otherwise.
+// cellSlotDerefs: the expressions `*c` of the package where c is a pointer to a defined slice-of-planes type that is
+// only ever obtained as the address of a grid cell (cellAt(x, y) returning (*cell)(&grid.Grid[y][x])): such a
+// dereference is the cell. Filled by markCellSlots before the rules that use gridCell run.
+var cellSlotDerefs = map[ast.Expr]bool{}
+
+// markCellSlots finds the slot types of the package: a defined type T over []*Quad-like slices such that every
+// conversion to *T in the package converts the address of a grid cell. `*c` for any c of type *T is then a cell.
+func (r *Run) markCellSlots(fns []*Func) {
+	cellSlotDerefs = map[ast.Expr]bool{}
+	good, bad := map[*types.Named]bool{}, map[*types.Named]bool{}
+	for _, fn := range fns {
+		info := fn.Info()
+		ast.Inspect(fn.Body, func(nd ast.Node) bool {
+			call, ok := nd.(*ast.CallExpr)
+			if !ok || len(call.Args) != 1 {
+				return true
+			}
+			tv, ok := info.Types[call.Fun]
+			if !ok || !tv.IsType() {
+				return true
+			}
+			pt, ok := tv.Type.(*types.Pointer)
+			if !ok {
+				return true
+			}
+			nt, ok := pt.Elem().(*types.Named)
+			if !ok || nt.Obj().Pkg() == nil || nt.Obj().Pkg().Path() != pkgDagaz {
+				return true
+			}
+			if _, isSlice := nt.Underlying().(*types.Slice); !isSlice {
+				return true
+			}
+			u, isAddr := ast.Unparen(call.Args[0]).(*ast.UnaryExpr)
+			if isAddr && u.Op == token.AND && gridCellSyntax(u.X) == 2 {
+				good[nt] = true
+			} else {
+				bad[nt] = true
+			}
+			return true
+		})
+	}
+	for _, fn := range fns {
+		info := fn.Info()
+		ast.Inspect(fn.Body, func(nd ast.Node) bool {
+			st, ok := nd.(*ast.StarExpr)
+			if !ok {
+				return true
+			}
+			if t := info.TypeOf(st.X); t != nil {
+				if pt, ok := t.(*types.Pointer); ok {
+					if nt, ok := pt.Elem().(*types.Named); ok && good[nt] && !bad[nt] {
+						cellSlotDerefs[st] = true
+					}
+				}
+			}
+			return true
+		})
+	}
+}
+
 func gridCell(x ast.Expr) int {
+	if e, ok := ast.Unparen(x).(ast.Expr); ok && cellSlotDerefs[e] {
+		return 2
+	}
+	// (*c)[i], (*c)[:n]: an element / a re-slice of the cell a slot stands for
+	{
+		y := ast.Unparen(x)
+		d := 0
+		for {
+			switch v := y.(type) {
+			case *ast.IndexExpr:
+				d++
+				y = ast.Unparen(v.X)
+				continue
+			case *ast.SliceExpr:
+				y = ast.Unparen(v.X)
+				continue
+			}
+			break
+		}
+		if d > 0 || y != ast.Unparen(x) {
+			if cellSlotDerefs[y] {
+				return 2 + d
+			}
+		}
+	}
+	return gridCellSyntax(x)
+}
+
+func gridCellSyntax(x ast.Expr) int {
 	depth := 0
 	for {
 		x = ast.Unparen(x)
@@ -544,11 +634,13 @@ func (r *Run) cellListsDisjoint(fns []*Func) {
 					if gridCell(l) != 2 {
 						continue
 					}
-					if _, isIdx := ast.Unparen(l).(*ast.IndexExpr); !isIdx {
-						continue
-					}
-					if ix := ast.Unparen(l).(*ast.IndexExpr); gridCell(ix.X) != 1 {
-						continue // an element of a cell's list, not the cell
+					if !cellSlotDerefs[ast.Unparen(l)] { // (*c = …: the slot is the cell)
+						if _, isIdx := ast.Unparen(l).(*ast.IndexExpr); !isIdx {
+							continue
+						}
+						if ix := ast.Unparen(l).(*ast.IndexExpr); gridCell(ix.X) != 1 {
+							continue // an element of a cell's list, not the cell
+						}
 					}
 					n++
 					rhs := as.Rhs[k]
@@ -599,7 +691,7 @@ func (r *Run) cellListsDisjoint(fns []*Func) {
 		}
 		walk(fn.Body)
 	}
-	r.Floor("Q6", "cell list stores examined", n, 3)
+	r.Floor("Q6", "cell list stores examined", n, 2)
 }
 
 // staleCellIndex (Q7): cell coordinates are relative to the grid's origin. A call that may move the
@@ -1587,6 +1679,29 @@ func (r *Run) cellShrinksByWhatWasFound(fns []*Func) {
 					if len(ev.Rhs) == 1 {
 						if call, ok := ast.Unparen(ev.Rhs[0]).(*ast.CallExpr); ok {
 							cellArg := false
+							if se, isSel := ast.Unparen(call.Fun).(*ast.SelectorExpr); isSel {
+								// c.indexOf(q): a method of the cell (slot) itself
+								if t := ev.Fn.Info().TypeOf(se.X); t != nil {
+									if pt, isPtr := t.(*types.Pointer); isPtr {
+										t = pt.Elem()
+									}
+									for d := range cellSlotDerefs {
+										if st, isStar := d.(*ast.StarExpr); isStar {
+											for _, f2 := range fns {
+												if dt := f2.Info().TypeOf(st); dt != nil && types.Identical(dt, t) {
+													cellArg = true
+												}
+											}
+										}
+										if cellArg {
+											break
+										}
+									}
+								}
+								if gridCell(se.X) == 2 {
+									cellArg = true
+								}
+							}
 							for _, a := range call.Args {
 								if gridCell(a) == 2 || gridCell(resolveLocal(ev.Fn, a, 0)) == 2 {
 									cellArg = true // (the cell itself, or a local that stands for it)
